@@ -153,6 +153,23 @@ def run(ck, prog, ctx):
                 ck.ob("DOM", "%s/success/%d/offset==declared" % (name, i), ok_decl, "%s: success %s" % (name, "also requires the consumed offset to equal the declared record length" if ok_decl else "does not compare the consumed offset with the declared record length"), where=b.where(line))
     ck.floor("DOM", "decoders", n_dec, 3)
 
+    # ------------------------------------------------------------------ DOM: the record readers stop only when nothing is left
+    from props import layout as _layout
+    n_end = 0
+    BLD = "ontology::builder::Builder::<"
+    for rid in ["<parser::binary::BinaryTermBuilder<'_> as std::iter::Iterator>::next", BLD + "ontology::builder::AllTerms>::add_parent_from_bytes",
+                BLD + "ontology::builder::ConnectedTerms>::add_genes_from_bytes", BLD + "ontology::builder::ConnectedTerms>::add_omim_disease_from_bytes",
+                BLD + "ontology::builder::ConnectedTerms>::add_orpha_disease_from_bytes"]:
+        rb = prog.body(rid)
+        if not ck.anchor("DOM", rid.split("::")[-1] + " (record reader)", rb):
+            continue
+        ip = 1 if rb.name == "next" else 2
+        k = _layout.check_end_guards(ck, "DOM", rb.short, prog, rb, ip)
+        if not k:
+            ck.undecided("DOM", rb.short + "/end-guard", "no test of the remaining input recognised in %s" % rb.short, where=rb.where())
+        n_end += 1
+    ck.floor("DOM", "record readers examined for their end test", n_end, 3)
+
     # ------------------------------------------------------------------ DISPATCH: version-gated sections
     fb = prog.body(codec.ONT + "from_bytes")
     if fb is not None:
